@@ -199,12 +199,18 @@ theorem eval_wf : ∀ (e : OpExpr) (o : Op), e.eval = .ok o → o.WF
     obtain ⟨t, ht, h⟩ := bind_eq_ok h
     have := pure_eq_ok h; subst this
     exact (regularizer_dense ht).1
-  | normalizer a reg, o, h => by simp only [eval] at h; cases h; trivial
+  | normalizer a reg, o, h => by
+    simp only [eval] at h
+    split at h
+    · cases h
+    · cases h; trivial
   | laplacian a reg nz sq, o, h => by
     simp only [eval] at h
-    obtain ⟨l, hl, h⟩ := bind_eq_ok h
-    have := pure_eq_ok h; subst this
-    exact (Laplacian.init_square hl).1
+    split at h
+    · cases h
+    · obtain ⟨l, hl, h⟩ := bind_eq_ok h
+      have := pure_eq_ok h; subst this
+      exact (Laplacian.init_square hl).1
   | coneighbor a nz, o, h => by
     simp only [eval] at h
     obtain ⟨c, hc, h⟩ := bind_eq_ok h
@@ -254,10 +260,14 @@ theorem eval_wf : ∀ (e : OpExpr) (o : Op), e.eval = .ok o → o.WF
     simp only [eval] at h
     obtain ⟨x, hx, h⟩ := bind_eq_ok h
     exact (Op.rightDot_spec (eval_wf e x hx) h).1
-  | astype e, o, h => by
+  | astype e dt, o, h => by
     simp only [eval] at h
     obtain ⟨x, hx, h⟩ := bind_eq_ok h
-    exact (Op.astype_spec (eval_wf e x hx) h).1
+    exact Op.astype_wf (eval_wf e x hx) h
+  | rmul c e, o, h => by
+    simp only [eval] at h
+    obtain ⟨x, hx, h⟩ := bind_eq_ok h
+    exact (Op.rmul_spec (eval_wf e x hx) h).1
   | d2u e, o, h => by
     simp only [eval] at h
     obtain ⟨x, hx, h⟩ := bind_eq_ok h
@@ -313,10 +323,10 @@ theorem mul_ty {o : Op} (hw : o.WF) (k : Rat) : (o.mul k).map Op.ty = .ok ⟨o.k
   | gscaled a c => rfl
 
 theorem add_ty {a b : Op} (ha : a.WF) (hb : b.WF) : (a.add b).map Op.ty = a.ty.add b.ty := by
-  have generic : ∀ (a : Op), (∀ s, a ≠ slr s) →
+  have generic : ∀ (a : Op),
       (if a.nRow = b.nRow ∧ a.nCol = b.nCol then Except.ok (gsum a b) else Except.error PyErr.valueError).map Op.ty
         = (if a.nRow = b.nRow ∧ a.nCol = b.nCol then Except.ok ⟨Kind.gen, a.nRow, a.nCol⟩ else Except.error PyErr.valueError) := by
-    intro a _
+    intro a
     by_cases h : a.nRow = b.nRow ∧ a.nCol = b.nCol
     · rw [if_pos h, if_pos h]; rfl
     · rw [if_neg h, if_neg h]; rfl
@@ -330,13 +340,13 @@ theorem add_ty {a b : Op} (ha : a.WF) (hb : b.WF) : (a.add b).map Op.ty = a.ty.a
       by_cases h : s.sparse.nRow = t.sparse.nRow ∧ s.sparse.nCol = t.sparse.nCol
       · simp [h, Op.kind]
       · simp [h, Op.kind]
-    | _ => rfl
-  | pol p => simp only [add]; rw [generic _ (by intro s; simp)]; cases b <;> rfl
-  | con c => simp only [add]; rw [generic _ (by intro s; simp)]; cases b <;> rfl
-  | nrm n t => simp only [add]; rw [generic _ (by intro s; simp)]; cases b <;> rfl
-  | lap l => simp only [add]; rw [generic _ (by intro s; simp)]; cases b <;> rfl
-  | gsum x y => simp only [add]; rw [generic _ (by intro s; simp)]; cases b <;> rfl
-  | gscaled x c => simp only [add]; rw [generic _ (by intro s; simp)]; cases b <;> rfl
+    | _ => simp only [add]; rw [generic _]; rfl
+  | pol p => simp only [add]; rw [generic _]; cases b <;> rfl
+  | con c => simp only [add]; rw [generic _]; cases b <;> rfl
+  | nrm n t => simp only [add]; rw [generic _]; cases b <;> rfl
+  | lap l => simp only [add]; rw [generic _]; cases b <;> rfl
+  | gsum x y => simp only [add]; rw [generic _]; cases b <;> rfl
+  | gscaled x c => simp only [add]; rw [generic _]; cases b <;> rfl
 
 theorem neg_kind {o o' : Op} (hw : o.WF) (h : o.neg = .ok o') : o'.ty = ⟨o.kind.scaled, o.nRow, o.nCol⟩ := by
   have := neg_ty hw
@@ -382,28 +392,125 @@ theorem subCsr_ty {o : Op} (hw : o.WF) (a : Mat) :
     · simp [h, Op.kind]
   | _ => rfl
 
-theorem transpose_ty {o : Op} (hw : o.WF) :
+theorem transpose_ty {o : Op} : o.WF →
     o.transpose.map Op.ty = (match o.kind with
       | .slr => .ok ⟨.slr, o.nCol, o.nRow⟩
       | .nrm b => .ok ⟨.nrm (!b), o.nCol, o.nRow⟩
       | .lap => .ok o.ty
       | .con => .ok ⟨.con, o.nCol, o.nRow⟩
       | .pol => .ok o.ty
-      | .gen => .error .unsupported) := by
-  cases o with
-  | slr s => simp only [transpose]; rw [SLR.transpose_eq hw]; rfl
+      | .gen => .ok ⟨.gen, o.nCol, o.nRow⟩) := by
+  induction o with
+  | slr s => intro hw; simp only [transpose]; rw [SLR.transpose_eq hw]; rfl
   | pol p =>
+    intro hw
     simp only [transpose]
     unfold Polynome.transpose
     rw [Polynome.init_eq _ _ hw.1 (by simp [hw.2.1]) (by rw [Mat.isNull_transpose]; exact hw.2.2)]
     simp [Op.ty, Op.kind, hw.2.1]
-  | con c => rfl
-  | nrm n t => cases t <;> rfl
+  | con c => intro _; rfl
+  | nrm n t => intro _; cases t <;> rfl
   | lap l =>
+    intro hw
     have hsq : l.lap.nCol = l.lap.nRow := hw
     simp [transpose, Op.ty, Op.kind, Laplacian.transpose, hsq]
-  | gsum a b => rfl
-  | gscaled a c => rfl
+  | gsum a b iha ihb =>
+    intro hw
+    have ha := iha hw.1
+    have hb := ihb hw.2.1
+    cases hta : a.transpose with
+    | error e => rw [hta] at ha; cases a <;> first | (rename_i t; cases t <;> cases ha) | cases ha
+    | ok a' =>
+      cases htb : b.transpose with
+      | error e => rw [htb] at hb; cases b <;> first | (rename_i t; cases t <;> cases hb) | cases hb
+      | ok b' =>
+        rw [hta] at ha
+        have hs : a'.nRow = a.nCol ∧ a'.nCol = a.nRow := by
+          cases a <;> first
+            | (rename_i t; cases t <;> (simp only [Op.kind, map_ok] at ha; have := Except.ok.inj ha; simp [Op.ty] at this; exact ⟨this.2.1, this.2.2⟩))
+            | (simp only [Op.kind, map_ok] at ha; have := Except.ok.inj ha; simp [Op.ty] at this; first | exact ⟨this.2.1, this.2.2⟩ | exact ⟨this.2.1.trans rfl, this.2.2.trans rfl⟩)
+        simp only [transpose, hta, htb]
+        show Except.ok (Op.ty (gsum a' b')) = _
+        simp [Op.ty, Op.kind, hs]
+  | gscaled a c iha =>
+    intro hw
+    have ha := iha hw
+    cases hta : a.transpose with
+    | error e => rw [hta] at ha; cases a <;> first | (rename_i t; cases t <;> cases ha) | cases ha
+    | ok a' =>
+      rw [hta] at ha
+      have hs : a'.nRow = a.nCol ∧ a'.nCol = a.nRow := by
+        cases a <;> first
+          | (rename_i t; cases t <;> (simp only [Op.kind, map_ok] at ha; have := Except.ok.inj ha; simp [Op.ty] at this; exact ⟨this.2.1, this.2.2⟩))
+          | (simp only [Op.kind, map_ok] at ha; have := Except.ok.inj ha; simp [Op.ty] at this; first | exact ⟨this.2.1, this.2.2⟩ | exact ⟨this.2.1.trans rfl, this.2.2.trans rfl⟩)
+      simp only [transpose, hta]
+      show Except.ok (Op.ty (gscaled a' c)) = _
+      simp [Op.ty, Op.kind, hs]
+
+theorem map_ty_ok {x : Except PyErr Op} {t : Ty} (h : x.map Op.ty = .ok t) : ∃ o, x = .ok o ∧ o.ty = t := by
+  cases x with
+  | error e => cases h
+  | ok o => exact ⟨o, rfl, Except.ok.inj h⟩
+
+/-- transposition of a well-formed operator succeeds and swaps the shape -/
+theorem transpose_shape {o : Op} (hw : o.WF) : ∃ t, o.transpose = .ok t ∧ t.nRow = o.nCol ∧ t.nCol = o.nRow := by
+  have h := transpose_ty hw
+  cases ht : o.transpose with
+  | error e => rw [ht] at h; cases o <;> first | (rename_i t; cases t <;> cases h) | cases h
+  | ok t =>
+    rw [ht] at h
+    refine ⟨t, rfl, ?_⟩
+    cases o <;> first
+      | (rename_i b; cases b <;> (simp only [Op.kind, map_ok] at h; have := Except.ok.inj h; simp [Op.ty] at this; exact ⟨this.2.1, this.2.2⟩))
+      | (simp only [Op.kind, map_ok] at h; have := Except.ok.inj h; simp [Op.ty] at this; first | exact ⟨this.2.1, this.2.2⟩ | exact ⟨this.2.1.trans rfl, this.2.2.trans rfl⟩)
+
+/-- **`.H` is total** on well-formed operators (after the repairs F16n and F16q): it never raises, the result is
+well formed, of the swapped shape, and denotes the transposed matrix -/
+theorem adjoint_ok {o : Op} : o.WF → ∃ h, o.adjoint = .ok h ∧ h.WF ∧ h.nRow = o.nCol ∧ h.nCol = o.nRow := by
+  have leaf : ∀ (o : Op), o.WF → o.adjoint = o.transpose →
+      ∃ h, o.adjoint = .ok h ∧ h.WF ∧ h.nRow = o.nCol ∧ h.nCol = o.nRow := by
+    intro o hw he
+    obtain ⟨t, ht, hs⟩ := transpose_shape hw
+    exact ⟨t, he.trans ht, (transpose_spec hw ht).1, hs⟩
+  induction o with
+  | gsum a b iha ihb =>
+    intro hw
+    obtain ⟨a', ha', hwa', har, hac⟩ := iha hw.1
+    obtain ⟨b', hb', hwb', hbr, hbc⟩ := ihb hw.2.1
+    have hty := add_ty hwa' hwb'
+    have hsh : a'.nRow = b'.nRow ∧ a'.nCol = b'.nCol := ⟨by rw [har, hbr, hw.2.2.2], by rw [hac, hbc, hw.2.2.1]⟩
+    have hk : ∃ k, a'.ty.add b'.ty = .ok ⟨k, a'.nRow, a'.nCol⟩ := by
+      unfold Ty.add
+      split
+      · exact ⟨a'.kind, by simp [Op.ty, hsh]⟩
+      · exact ⟨Kind.gen, by simp [Op.ty, hsh]⟩
+    obtain ⟨k, hk⟩ := hk
+    rw [hk] at hty
+    obtain ⟨o', ho', hto⟩ := map_ty_ok hty
+    have hadj : (gsum a b).adjoint = .ok o' := by simp only [adjoint, ha', hb']; exact ho'
+    have hs : o'.nRow = a'.nRow ∧ o'.nCol = a'.nCol := by
+      have := congrArg Ty.nRow hto; have h2 := congrArg Ty.nCol hto; exact ⟨this, h2⟩
+    refine ⟨o', hadj, (adjoint_spec hw hadj).1, ?_, ?_⟩
+    · rw [hs.1, har]; rfl
+    · rw [hs.2, hac]; rfl
+  | gscaled a c iha =>
+    intro hw
+    obtain ⟨a', ha', hwa', har, hac⟩ := iha hw
+    have hty := mul_ty hwa' c
+    obtain ⟨o', ho', hto⟩ := map_ty_ok hty
+    have hadj : (gscaled a c).adjoint = .ok o' := by simp only [adjoint, ha']; exact ho'
+    have hs : o'.nRow = a'.nRow ∧ o'.nCol = a'.nCol := by
+      have := congrArg Ty.nRow hto; have h2 := congrArg Ty.nCol hto; exact ⟨this, h2⟩
+    refine ⟨o', hadj, (adjoint_spec (o := gscaled a c) hw hadj).1, ?_, ?_⟩
+    · rw [hs.1, har]; rfl
+    · rw [hs.2, hac]; rfl
+  | slr s => intro hw; exact leaf _ hw (by simp only [adjoint])
+  | pol p => intro hw; exact leaf _ hw (by simp only [adjoint])
+  | con c => intro hw; exact leaf _ hw (by simp only [adjoint])
+  | nrm n t => intro hw; exact leaf _ hw (by simp only [adjoint])
+  | lap l => intro hw; exact leaf _ hw (by simp only [adjoint])
+
+theorem rmul_ty (o : Op) (c : Rat) : (o.rmul c).map Op.ty = .ok ⟨.gen, o.nRow, o.nCol⟩ := rfl
 
 theorem leftDot_ty {o : Op} (hw : o.WF) (m : Mat) :
     (Op.leftDot m o).map Op.ty = (match o.kind with
@@ -445,8 +552,8 @@ theorem rightDot_ty {o : Op} (hw : o.WF) (m : Mat) :
     · simp [h, Op.kind]
   | _ => rfl
 
-theorem astype_ty (o : Op) :
-    o.astype.map Op.ty = (match o.kind with
+theorem astype_ty (o : Op) (dt : CastTo) :
+    (o.astype dt).map Op.ty = (match o.kind with
       | .slr | .lap | .con => .ok o.ty
       | _ => .error .attributeError) := by
   cases o <;> rfl
@@ -524,13 +631,20 @@ theorem eval_type : ∀ (e : OpExpr), e.eval.map Op.ty = e.type?
     unfold LinOp.regularizer at hs
     obtain ⟨rfl, -⟩ := SLR.init_ok hs
     rfl
-  | normalizer a reg => rfl
-  | laplacian a reg nz sq => by
+  | normalizer a reg => by
     simp only [eval, type?]
-    unfold Laplacian.init
-    by_cases h : a.nRow ≠ a.nCol
+    by_cases h : a.nCol = 0
     · rw [if_pos h, if_pos h]; rfl
     · rw [if_neg h, if_neg h]; rfl
+  | laplacian a reg nz sq => by
+    simp only [eval, type?]
+    by_cases h0 : a.nRow = 0 ∧ a.nCol = 0
+    · rw [if_pos h0, if_pos h0]; rfl
+    · rw [if_neg h0, if_neg h0]
+      unfold Laplacian.init
+      by_cases h : a.nRow ≠ a.nCol
+      · rw [if_pos h, if_pos h]; rfl
+      · rw [if_neg h, if_neg h]; rfl
   | coneighbor a nz => by
     simp only [eval, type?]
     unfold CoNeighbor.init
@@ -648,7 +762,7 @@ theorem eval_type : ∀ (e : OpExpr), e.eval.map Op.ty = e.type?
       rw [← ih]
       have := Op.rightDot_ty (eval_wf e x he) m
       cases x <;> exact this
-  | astype e => by
+  | astype e dt => by
     have ih := eval_type e
     simp only [eval, type?]
     cases he : e.eval with
@@ -656,8 +770,17 @@ theorem eval_type : ∀ (e : OpExpr), e.eval.map Op.ty = e.type?
     | ok x =>
       rw [he] at ih
       rw [← ih]
-      have := Op.astype_ty x
+      have := Op.astype_ty x dt
       cases x <;> exact this
+  | rmul c e => by
+    have ih := eval_type e
+    simp only [eval, type?]
+    cases he : e.eval with
+    | error err => rw [he] at ih; rw [← ih]; rfl
+    | ok x =>
+      rw [he] at ih
+      rw [← ih]
+      exact Op.rmul_ty x c
   | d2u e => by
     have ih := eval_type e
     simp only [eval, type?]
